@@ -5,7 +5,7 @@ from sa.loader import AnalysisError, norm, walk_local
 from sa.cfg import cfg_of
 from sa import guards
 from sa.spec import schema_spec as spec
-from .common import analysis, names_in, literals_tested, true_facts
+from .common import analysis, names_in, literals_tested, true_facts, value_sources
 
 PROP = "C11"
 TECHNIQUE = "decision-table / pattern extraction of the full-name rule; sibling exhaustiveness of the three named-type arms by role (name computed, redefinition raise, registration) with CFG ordering; dominance of unknown-reference raises; regex AST comparison; default-kind table extraction against the spec; data-dependence of the decimal guards"
@@ -103,14 +103,20 @@ def run(ctx):
     if rec is None:
         raise AnalysisError("_parse_schema: record arm not found")
     rn = arm_nodes(rec)
-    rebind = [n for n in rn if isinstance(n, ast.Assign) and isinstance(n.targets[0], ast.Tuple) and len(n.targets[0].elts) == 2 and isinstance(n.value, ast.Call) and norm(n.value.func) == sn.name]
-    ok = len(rebind) == 1 and norm(rebind[0].targets[0].elts[0]) == R.namespace and [norm(x) for x in rebind[0].value.args] == [R.schema, R.namespace]
-    ctx.check("C11.R1", "record arm: the namespace for the fields is the record's own (from schema_name)", ok, ps.where(rec), f"_parse_schema record arm: {[norm(x) for x in rebind]}", "fields of a record must resolve relative to the record's namespace, which the arm has to take from schema_name")
     pf = [c for c in rn if isinstance(c, ast.Call) and isinstance(c.func, ast.Name) and c.func.id == "parse_field"]
-    if len(pf) != 1:
+    if len(pf) != 1 or len(pf[0].args) < 2:
         ctx.unrecognised("C11.R1", "record arm", ps.where(rec), f"{len(pf)} parse_field calls")
     else:
-        ctx.check("C11.R1", "record arm: fields parsed with that namespace", len(pf[0].args) > 1 and norm(pf[0].args[1]) == R.namespace, ps.where(pf[0]), f"_parse_schema: {norm(pf[0])[:70]}", "fields are parsed under a namespace other than the record's")
+        # the namespace handed to the fields must be the first result of schema_name(schema, <enclosing namespace>)
+        nsarg = pf[0].args[1]
+        srcs = value_sources(a, ps, nsarg) if isinstance(nsarg, ast.Name) else [("expr", nsarg)]
+        good = bool(srcs)
+        for kind, what in srcs:
+            if kind == "unpack" and isinstance(what[0], ast.Call) and norm(what[0].func) == sn.name and what[1] == 0 and len(what[0].args) >= 2 and norm(what[0].args[0]) == R.schema and isinstance(what[0].args[1], ast.Name) and all(k == "param" and n_.arg == R.namespace for k, n_ in value_sources(a, ps, what[0].args[1])):
+                continue
+            good = False
+        ctx.check("C11.R1", "record arm: the namespace for the fields is the record's own (from schema_name)", good, ps.where(pf[0]), f"_parse_schema record arm: fields parsed under `{norm(nsarg)}` <- {[(k, norm(w[0]) if k == 'unpack' else (norm(w) if k == 'expr' else getattr(w, 'arg', getattr(w, 'id', '?')))) for k, w in srcs]}", "fields of a record must resolve relative to the record's namespace, which the arm has to take from schema_name(schema, enclosing namespace)")
+        ctx.holds("C11.R1", "record arm: fields parsed with that namespace", ps.where(pf[0]))
     for kind, key in (("array", "items"), ("map", "values")):
         arm = R.arms.get(kind)
         calls = [c for c in arm_nodes(arm) if isinstance(c, ast.Call) and isinstance(c.func, ast.Name) and c.func.id == ps.name and c.args and norm(c.args[0]) == f"{R.schema}['{key}']"] if arm else []
